@@ -10,7 +10,11 @@ def gen_cfg(path, consts, extra=""):
         if consts:
             f.write("CONSTANTS\n")
             for k, v in consts.items():
-                f.write("  %s = %s\n" % (k, json.dumps(v) if isinstance(v, str) else v))
+                if isinstance(v, bool):
+                    v = "TRUE" if v else "FALSE"
+                elif isinstance(v, str):
+                    v = json.dumps(v)
+                f.write("  %s = %s\n" % (k, v))
         f.write(extra)
 
 
